@@ -1,6 +1,7 @@
 package props
 
 import (
+	"encoding/json"
 	"fmt"
 	"strings"
 	"time"
@@ -816,6 +817,28 @@ func scnPreemptG5(name string) *world.Scenario {
 	return s
 }
 
+// the victim queue holds a gang application whose three placeholders of 2 fill the node: a preemption that needs two
+// of them races with the placeholder timeout (timer goroutine), which marks placeholders released one by one
+func scnPreemptPH(name string) *world.Scenario {
+	s := scnPreemptG(name, false, 2, 4, "1ns", "1ns")
+	s.Nodes = []world.NodeSpec{{ID: "n1", Cap: world.M(6)}}
+	s.Apps = []world.AppSpec{
+		{ID: "appa", Queue: "root.a", User: "u1", Groups: []string{"g1"}},
+		{ID: "appb", Queue: "root.b", User: "u2", Groups: []string{"g2"}, Gang: "Soft", PlaceholderAsk: world.M(6)},
+	}
+	s.Asks = nil
+	s.Prefix = []world.Op{op("NODE_ADD", "n1"), op("APP_ADD", "appa"), op("APP_ADD", "appb")}
+	for i := 1; i <= 3; i++ {
+		k := fmt.Sprintf("p%d", i)
+		s.Asks = append(s.Asks, world.AskSpec{Key: k, App: "appb", Res: world.M(2), Create: 1000 + int64(i), AllowPreemptSelf: true, Placeholder: true, TaskGroup: "tg1"})
+		s.Prefix = append(s.Prefix, op("ASK", k), op("SCHEDULE"))
+	}
+	s.Asks = append(s.Asks, world.AskSpec{Key: "a2", App: "appa", Res: world.M(4), Create: 1011, AllowPreemptOther: true},
+		world.AskSpec{Key: "r1", App: "appb", Res: world.M(2), Create: 1012, TaskGroup: "tg1", AllowPreemptSelf: true})
+	s.Alphabet = []string{"SCHEDULE", "ASK", "RELEASE", "CONFIRM", "TIMER_PH"}
+	return s
+}
+
 func checkC07C08(prop string) func(tier string, seed int64) *CustomResult {
 	return func(tier string, seed int64) *CustomResult {
 		res := runSharded(strings.ToLower(prop), tier, shardCount())
@@ -851,6 +874,23 @@ func checkC07C08(prop string) func(tier string, seed int64) *CustomResult {
 				res.Coverage["rule_"+k] = cur + int64(c)
 			}
 		}
+		if prop == "C07" {
+			// (3) the marking of victims races with other goroutines (RM release handler, placeholder timer): all
+			// interleavings of the preemption scenarios with at most one preemption (two in the thorough tier) at lock
+			// granularity, judged by the announcement rules on the settled final state
+			r3 := runSharded("c07ilv", tier, shardCount())
+			res.Violations = append(res.Violations, r3.Violations...)
+			res.Harness = append(res.Harness, r3.Harness...)
+			for _, k := range []string{"executions", "distinct_final_states", "lock_operations_scheduled", "schedules_skipped_nondeterministic_replay"} {
+				res.Coverage["interleaving_"+k] = r3.Coverage[k]
+			}
+			if ex, ok := r3.Coverage["exhaustive"].(bool); ok && !ex {
+				res.Coverage["exhaustive"] = false
+			}
+			if n, ok := r3.Coverage["executions"].(int64); ok {
+				trans += int(n)
+			}
+		}
 		res.Coverage["states"] = states
 		res.Coverage["transitions"] = trans
 		res.Coverage["traces_validated_against_impl"] = trans
@@ -861,6 +901,21 @@ func checkC07C08(prop string) func(tier string, seed int64) *CustomResult {
 
 func init() {
 	ShardFuncs["c07"] = c07Shard("C07")
+	ShardFuncs["c07ilv"] = func(tier string, shard, n int) *CustomResult {
+		r := c14ShardSel(tier, shard, n, func(name string) bool {
+			return strings.HasPrefix(name, "S4-") || strings.HasPrefix(name, "S13-") || strings.HasPrefix(name, "S14-")
+		})
+		var keep []mc.Found
+		for _, f := range r.Violations {
+			if strings.HasPrefix(f.Viol.Rule, "final-state-C07-") {
+				f.Viol.Prop = "C07"
+				f.Viol.FP = "C07:" + strings.TrimPrefix(f.Viol.FP, "C14:")
+				keep = append(keep, f)
+			}
+		}
+		r.Violations = keep
+		return r
+	}
 	ShardFuncs["c08"] = c07Shard("C08")
 	for _, prop := range []string{"C07", "C08"} {
 		mons := []mc.Monitor{monC07()}
@@ -873,8 +928,35 @@ func init() {
 		mc.Register(&mc.ScenarioDef{Scn: scnPreemptG5("preempt-g5-" + prop), Monitors: mons})
 		mc.Register(&mc.ScenarioDef{Scn: scnPreemptG("preempt-quota-delay-"+prop, true, 1, 4, "1h", "3h"), Monitors: mons})
 	}
-	registerCheck(&CheckDef{Prop: "C07", Level: "model_checking", Technique: "exhaustive product of small preemption worlds built on the real core plus explicit-state search of preemption scenarios; every PREEMPTED_BY_SCHEDULER release is judged from the pre-state against the eligibility rules", Custom: checkC07C08("C07"),
+	registerCheck(&CheckDef{Prop: "C07", Level: "model_checking", Technique: "exhaustive product of small preemption worlds built on the real core plus explicit-state search of preemption scenarios; every PREEMPTED_BY_SCHEDULER release is judged from the pre-state against the eligibility rules", Custom: checkC07C08("C07"), Replay: replayC07,
 		Assumptions: []string{"the priority rule is only judged where no priority fence or offset is configured on either path", "preemption attempt frequency 0, queue preemption delay 1s with asks created in 1970 (old) or one hour in the future (young)"}})
 	registerCheck(&CheckDef{Prop: "C08", Level: "model_checking", Technique: "exhaustive product of small preemption worlds built on the real core plus explicit-state search of preemption scenarios (incl. quota changes and QUOTA_PREEMPT); guarantee, shortfall and preempting-ledger rules on every step", Custom: checkC07C08("C08"),
 		Assumptions: []string{"'above the guaranteed share at the moment each victim is taken' is judged by its order-free necessary condition", "quota preemption claim bound is judged leniently (task granularity)"}})
+}
+
+// replayC07: counterexamples of the interleaving part are schedules, the others are inputs of the enumeration
+func replayC07(fp string, raw interface{}) int {
+	if m, ok := raw.(map[string]interface{}); ok {
+		if _, has := m["schedule"]; has {
+			return replayC14(fp, raw)
+		}
+	}
+	want, _ := json.Marshal(raw)
+	cr := checkC07C08("C07")("quick", 0)
+	for _, f := range cr.Violations {
+		got, _ := json.Marshal(f.Custom)
+		if f.Viol.FP == fp && string(got) == string(want) {
+			fmt.Printf("violation: %s %s: %s\ninput: %s\nREPRODUCED\n", f.Viol.Prop, f.Viol.Rule, f.Viol.Detail, got)
+			return 1
+		}
+	}
+	for _, f := range cr.Violations {
+		if f.Viol.FP == fp {
+			got, _ := json.Marshal(f.Custom)
+			fmt.Printf("violation with the same fingerprint: %s %s: %s\ninput: %s\nREPRODUCED (same class)\n", f.Viol.Prop, f.Viol.Rule, f.Viol.Detail, got)
+			return 1
+		}
+	}
+	fmt.Println("not reproduced")
+	return 0
 }
